@@ -85,7 +85,11 @@ def _gen_scalar(rng, d, cfg):
     if kind == "sneg":
         return ["sneg", _gen_scalar(rng, d - 1, cfg)]
     # reciprocal of a leaf only: the reference must never divide by an accidental zero
-    if cfg["ns"] and rng.random() < 0.6:
+    r = rng.random()
+    if r < 0.35:
+        # 1/norm(v) of a plain symbol (unit vectors): the assigned vectors are never zero
+        return ["sinv", ["norm", ["v", rng.randrange(cfg["nv"])]]]
+    if cfg["ns"] and r < 0.75:
         return ["sinv", ["s", rng.randrange(cfg["ns"])]]
     return ["sinv", _gen_rat(rng)]
 
